@@ -72,6 +72,12 @@ def _text_table(rng, maxrows, ragged_ok=True):
         hdr[rng.randrange(nf)] = rng.choice([None, 7, 2.5, True, ''])
     n = rng.randint(0, maxrows)
     rows = [list(hdr)]
+    if rng.random() < 0.03:
+        # a header row without fields, followed by data rows (a csv file
+        # whose first line is blank)
+        return [[]] + [[enc(rng.choice(SPECIAL + [1, None]))
+                        for _ in range(rng.randint(0, 2))]
+                       for _ in range(rng.randint(0, 3))]
     if rng.random() < 0.04:
         # a table that yields nothing at all, not even a header (an empty
         # list, fromcsv of an empty file): to* and tee* both accept it
@@ -136,7 +142,7 @@ def gen_case(rng, tier, g):
         history = rng.choice(['full', 'full', 'partial-close-full',
                               'partial-drop-full', 'full-full',
                               'partial-partial-full', 'sinkfail-full',
-                              'full-shrink-full'])
+                              'full-shrink-full', 'full-permute-full'])
         return {'prop': PROP, 'machine': 'tee', 'fmt': fmt, 'args': args,
                 'config': draw_config(rng, 0.25, exclude=('sort_buffersize',)),
                 'table': table, 'history': history,
@@ -352,11 +358,20 @@ def _run_tee(e, case, log):
         if store.open_handles != 0:
             raise _Bad('handle-left-open', '%s: %d handles open after a '
                        'pass whose sink failed' % (what, store.open_handles))
-    def shrink():
-        # the wrapped table loses its last rows between two passes: the
-        # target must then hold exactly what to* writes for the shorter table
-        keep = max(1, len(src.rows) - case.get('drop', 1))
-        del src.rows[keep:]
+    def shrink(how='shrink'):
+        # the wrapped table changes between two passes (it loses its last
+        # rows, or its fields change places): the target must then hold
+        # exactly what to* writes for the table as it is now
+        if how == 'permute':
+            n = len(src.rows[0]) if src.rows else 0
+            if n > 1:
+                k = 1 + case.get('drop', 1) % (n - 1)
+                for i, r in enumerate(src.rows):
+                    full = list(r) + [None] * (n - len(r))
+                    src.rows[i] = full[k:n] + full[:k] + list(r)[n:]
+        else:
+            keep = max(1, len(src.rows) - case.get('drop', 1))
+            del src.rows[keep:]
         ref = SimStore()
         _to(e, fmt, SimTable([list(r) for r in src.rows],
                              mode=case.get('rowtype', 'copy')),
@@ -368,6 +383,10 @@ def _run_tee(e, case, log):
         full('pass 1')
         shrink()
         full('pass after the table got shorter')
+    elif h == 'full-permute-full':
+        full('pass 1')
+        shrink('permute')
+        full('pass after the fields changed places')
     elif h == 'sinkfail-full':
         sinkfail(case.get('budget', 0))
         full('pass after one whose sink failed')
